@@ -105,7 +105,7 @@ def run(prop, tier, replay=None):
     distinct = len(vlib.read_hashes(hashes))
     shutil.rmtree(tmp, ignore_errors=True)
     need = ["cases_with_binning", "clamped_requests", "max_shape_requests", "reconfigurations", "frames", "rejected_sets"] if prop == "C17" \
-        else ["trigger_runs", "stops_with_pending_get_frame", "restart_checks", "timebound_checks", "frames"]
+        else ["trigger_runs", "stops_with_pending_get_frame", "restart_checks", "timebound_checks", "frames", "failed_frame_calls"]
     for k in need:
         if not tot.get(k):
             chk.fail("required event class never observed: %s" % k)
